@@ -331,6 +331,95 @@ func marshalTokens(b []byte, err error) string {
 	return seq(append(out, "ok"))
 }
 
+// wellFormedTokens says whether a token sequence "<...,ok>" is one JSON value, or several roots separated by newlines - the texts
+// property C10 speaks about.  (Values side by side without a separator are what the code writes for a scope holding several
+// values; that text is nobody's demand.)
+func wellFormedTokens(w string) bool {
+	if !strings.HasPrefix(w, "<") || !strings.HasSuffix(w, ",ok>") {
+		return false
+	}
+	t := strings.Split(w[1:len(w)-4], ",")
+	// the token "," splits into two empty strings: rebuild
+	var toks []string
+	for i := 0; i < len(t); i++ {
+		if t[i] == "" && i+1 < len(t) && t[i+1] == "" {
+			toks = append(toks, ",")
+			i++
+		} else {
+			toks = append(toks, t[i])
+		}
+	}
+	pos := 0
+	var value func() bool
+	value = func() bool {
+		if pos >= len(toks) {
+			return false
+		}
+		k := toks[pos]
+		pos++
+		switch k {
+		case "s", "#", "n", "t", "f":
+			return true
+		case "[":
+			if pos < len(toks) && toks[pos] == "]" {
+				pos++
+				return true
+			}
+			for {
+				if !value() {
+					return false
+				}
+				if pos < len(toks) && toks[pos] == "," {
+					pos++
+					continue
+				}
+				break
+			}
+			if pos < len(toks) && toks[pos] == "]" {
+				pos++
+				return true
+			}
+			return false
+		case "{":
+			if pos < len(toks) && toks[pos] == "}" {
+				pos++
+				return true
+			}
+			for {
+				if pos+1 >= len(toks) || toks[pos] != "s" || toks[pos+1] != ":" {
+					return false
+				}
+				pos += 2
+				if !value() {
+					return false
+				}
+				if pos < len(toks) && toks[pos] == "," {
+					pos++
+					continue
+				}
+				break
+			}
+			if pos < len(toks) && toks[pos] == "}" {
+				pos++
+				return true
+			}
+			return false
+		}
+		return false
+	}
+	for {
+		if !value() {
+			return false
+		}
+		if pos < len(toks) && toks[pos] == "nl" {
+			pos++
+			continue
+		}
+		break
+	}
+	return pos == len(toks)
+}
+
 // realMarshalObserve marshals from every iterator state the walks of IterMachine!ObserveMarshal pass through.
 func realMarshalObserve(words []uint64) (obs map[string][]string, problem string) {
 	defer func() {
@@ -527,12 +616,16 @@ func giter(args []string) error {
 					case want[j] == "<ERR>":
 						// the machine refuses; whether the text the code returns instead is right is judged on real documents (g-edit)
 						rep.Count("marshal_answers_where_the_machine_refuses_not_as_specified", 1)
+					case !wellFormedTokens(want[j]):
+						// the machine writes values side by side (a scope holding several values): no document, nobody's demand
+						rep.Count("marshal_of_scopes_that_hold_no_single_document_not_as_specified", 1)
 					default:
 						bad = fmt.Sprintf("state %d: %s", j, got[j])
 					}
 				}
 				if bad != "" {
-					if clean {
+					// a byte that is no tag never reaches a tape through Parse or Deserialize: what marshalling makes of it is nobody's demand
+					if clean && !strings.Contains(text, "x:") {
 						rep.Add(run.Mismatch{Property: *prop, Sig: "iter:" + fld + ":" + text, Text: text, Want: fld + " = " + seq(want), Got: bad,
 							Detail: "MarshalJSON from an iterator state on a tape that every call accepts differs from IterMachine!Marshal"})
 					} else {
